@@ -713,7 +713,7 @@ class NetCDF4(FileHandler):
         return path + dim
 
     @staticmethod
-    def _load_group(ds, path, group, fields):
+    def _load_group(ds, path, group, fields, parent_dims=None):
         if path is None:
             # The current group is the root group
             path = ""
@@ -724,10 +724,14 @@ class NetCDF4(FileHandler):
         # Dimension (coordinate) mapping: A dimension might be defined in a
         # group, then it is valid for this group only. Otherwise, the
         # dimension from the parent group is taken (if it suits with name and
-        # size)
+        # size). A group can also use the dimensions of its ancestors without
+        # defining them itself (this is how xarray writes sub groups).
         dim_map = {
-            dim: NetCDF4._get_dimension_name(ds, group, path, dim)
-            for dim in group.dimensions
+            **(parent_dims or {}),
+            **{
+                dim: NetCDF4._get_dimension_name(ds, group, path, dim)
+                for dim in group.dimensions
+            },
         }
 
         # Load variables:
@@ -745,7 +749,7 @@ class NetCDF4(FileHandler):
         # Do the same for all sub groups:
         for sub_group_name, sub_group in group.groups.items():
             NetCDF4._load_group(
-                ds, path + sub_group_name, sub_group, fields
+                ds, path + sub_group_name, sub_group, fields, dim_map
             )
 
     @expects_file_info(pos=2)
